@@ -1000,9 +1000,15 @@ class Emitter:
             if cnt.get('kind') != 'IntegerLiteral':
                 raise ExtractionError('%s: variadic count of %s is not a literal' % (self.cname, name))
             rest = args[npos + 1:]
-            if int(cnt['value']) != len(rest):
-                raise ExtractionError('%s: %s announces %s arguments but passes %d'
-                                      % (self.cname, name, cnt['value'], len(rest)))
+            nlit = int(cnt['value'])
+            if nlit > len(rest):
+                # va_arg past the last argument is undefined behaviour: make it an obligation
+                self.fire('E12_variadic_short')
+                return '__CPROVER_assert(0, "variadic call of %s announces %d arguments but passes %d")' % (name, nlit, len(rest))
+            if nlit < len(rest):
+                # the callee reads only the announced number of arguments; the others are evaluated and ignored
+                self.fire('E12_variadic_truncated')
+                rest = rest[:nlit]
             al = [self.arg(a, ctx) for a in args[:npos]] + [self.arg(a, ctx) for a in rest]
             self.fire('E12_variadic')
             name = '%s_%d' % (name, len(rest))
@@ -1215,8 +1221,8 @@ def parse_spec(path):
 # class layout
 # --------------------------------------------------------------------------
 
-def class_struct(cfg, relfile, cls, cname=None, skip=(), targs=None):
-    docs = clang_dump(relfile, cls)
+def class_struct(cfg, relfile, cls, cname=None, skip=(), targs=None, extra_defs=()):
+    docs = clang_dump(relfile, cls, extra_defs)
     T = Types(cfg)
     best = None
     if targs:
